@@ -39,9 +39,11 @@ pub fn run(seed: u64, tier: &str, out: &mut Out) {
         let wide_bar = rng.chance(1, 3);
         let term_w = rng.range(1, 60) as u16;
         let rest = if wide_bar { rng.below(term_w as u64 + 3) as usize } else { 0 };
-        let nn = if wide_bar { (term_w as usize).saturating_sub(rest) } else { rng.below(41) as usize };
+        // `{bar}` without a width is 20 columns; a wide bar may stand on a later line of a template whose first line has its own wide element
+        let default_width = !wide_bar && rng.chance(1, 6);
+        let nn = if wide_bar { (term_w as usize).saturating_sub(rest) } else if default_width { 20 } else { rng.below(41) as usize };
         let w = if wide_bar { term_w } else { 200 };
-        let tpl = if wide_bar { "{prefix}{wide_bar}".to_string() } else { format!("{{bar:{nn}}}") };
+        let tpl = if wide_bar { if rng.chance(1, 3) { "{wide_msg}\n{prefix}{wide_bar}".to_string() } else { "{prefix}{wide_bar}".to_string() } } else if default_width { "{bar}".to_string() } else { format!("{{bar:{nn}}}") };
         let prefix: String = "p".repeat(rest);
         let len: Option<u64> = match rng.below(12) { 0 => None, 1 => Some(0), 2 => Some(1 << 24), 3 => Some((1 << 24) + 1), 4 => Some(u64::MAX), 5 => Some(rng.range(1, 300)), _ => Some(rng.range(1, 60)) };
         // positions: around every cell boundary, plus the extremes; sorted
